@@ -108,7 +108,8 @@ def guards_alive_at(body, cfg, du, target_bb):
         g = {L.dest.l}
         for t in body.calls("=unwrap", "=expect"):
             if any(k == "call" and o is L for k, o in Slice(body, du).origins(t.args[0])): g.add(t.dest.l)
-        drops = {b.idx for b in body.blocks if not b.cleanup and b.term.kind == "drop" and b.term.place.l in g and not b.term.place.p}
+        from vlib.cfg import release_blocks
+        drops = release_blocks(body, du, g)
         if not cfg.must_pass(L.target, [target_bb], drops): held.append(L)
     return held
 
